@@ -8,6 +8,7 @@ import (
 	"strconv"
 	"strings"
 	"testing"
+	"time"
 
 	"gopkg.in/typ.v4"
 	"gopkg.in/typ.v4/avl"
@@ -36,7 +37,7 @@ type pair struct{ A, B int8 }
 const rule = "case = element type/comparator (int+typ.Compare via NewOrdered, int+reversed comparator via New, string via NewOrdered, " +
 	"2-field struct+lexicographic comparator) x universe 0..U (U in {3,12,40}) x history of add/rem/has/clear/clone/walk on a primary tree and " +
 	"(after a clone op) its clone; after EVERY op both trees are compared with sorted-multiset models: SliceInOrder == model, Len, Contains over " +
-	"the universe, String, Walk*==Slice*, Remove's result and single-occurrence effect, and pre/in/post-order must be explained by ONE binary tree; " +
+	"the universe, String, Walk*==Slice* (with the tree read again from inside a walk callback), returned slices overwritten by the caller, Remove's result and single-occurrence effect, and pre/in/post-order must be explained by ONE binary tree; " +
 	"non-trivial = >=5 ops incl. a successful Remove of a node with two children, a Remove of an absent value, a duplicate Add"
 
 type tree[T comparable] struct {
@@ -121,14 +122,23 @@ func run[T comparable](c Case, k kit[T]) pbt.Outcome {
 			return ""
 		}
 		where := func() string { return fmt.Sprintf("after op %d %+v, tree %d", step, op, which) }
-		in := ints(k, tr.t.SliceInOrder())
+		rawIn := tr.t.SliceInOrder()
+		in := ints(k, rawIn)
 		if !eq(in, tr.model) {
 			return fmt.Sprintf("%s: SliceInOrder = %v, model (sorted multiset) = %v", where(), in, tr.model)
+		}
+		// the returned slice belongs to the caller: overwriting it must not show up in the tree's later answers
+		for j := range rawIn {
+			rawIn[j] = k.mk(c.U + 1)
 		}
 		if tr.t.Len() != len(tr.model) {
 			return fmt.Sprintf("%s: Len = %d, model has %d", where(), tr.t.Len(), len(tr.model))
 		}
-		pre := ints(k, tr.t.SlicePreOrder())
+		rawPre := tr.t.SlicePreOrder()
+		pre := ints(k, rawPre)
+		for j := range rawPre {
+			rawPre[j] = k.mk(c.U + 1)
+		}
 		if !touched {
 			// the other tree must not have moved at all (no shared state): same contents, same shape
 			if lastPre[which] != nil && !eq(pre, lastPre[which]) {
@@ -244,9 +254,29 @@ func run[T comparable](c Case, k kit[T]) pbt.Outcome {
 			continue
 		case "walk":
 			var a, b, d []T
-			tr.t.WalkPreOrder(func(x T) { a = append(a, x) })
-			tr.t.WalkInOrder(func(x T) { b = append(b, x) })
-			tr.t.WalkPostOrder(func(x T) { d = append(d, x) })
+			// reading the tree from inside a walk callback is legal: at visit number V of each walk the callback
+			// asks the same tree for its contents and they must be what they were
+			nested := ""
+			probe := func(walk string, visit int) {
+				if nested != "" || visit != v%(len(tr.model)+1) {
+					return
+				}
+				if got := ints(k, tr.t.SliceInOrder()); !eq(got, tr.model) {
+					nested = fmt.Sprintf("SliceInOrder called from inside the %s callback (visit %d) = %v, contents are %v", walk, visit, got, tr.model)
+				} else if tr.t.Len() != len(tr.model) {
+					nested = fmt.Sprintf("Len called from inside the %s callback = %d, want %d", walk, tr.t.Len(), len(tr.model))
+				} else if tr.t.Contains(k.mk(c.U + 1)) {
+					nested = fmt.Sprintf("Contains(absent value) called from inside the %s callback = true", walk)
+				} else if len(tr.model) > 0 && !tr.t.Contains(k.mk(tr.model[len(tr.model)-1])) {
+					nested = fmt.Sprintf("Contains(%d) called from inside the %s callback = false, contents are %v", tr.model[len(tr.model)-1], walk, tr.model)
+				}
+			}
+			tr.t.WalkPreOrder(func(x T) { probe("WalkPreOrder", len(a)); a = append(a, x) })
+			tr.t.WalkInOrder(func(x T) { probe("WalkInOrder", len(b)); b = append(b, x) })
+			tr.t.WalkPostOrder(func(x T) { probe("WalkPostOrder", len(d)); d = append(d, x) })
+			if nested != "" {
+				return pbt.Fail("op %d on tree %d: %s", i, which, nested)
+			}
 			if !eq(ints(k, a), ints(k, tr.t.SlicePreOrder())) || !eq(ints(k, b), ints(k, tr.t.SliceInOrder())) || !eq(ints(k, d), ints(k, tr.t.SlicePostOrder())) {
 				return pbt.Fail("op %d on tree %d: Walk* and Slice* disagree: walks pre=%v in=%v post=%v", i, which, ints(k, a), ints(k, b), ints(k, d))
 			}
@@ -316,6 +346,102 @@ var specHist = pbt.Register(&pbt.Spec[Case]{
 	Run: Run, Quick: 15000, Thorough: 100000,
 })
 
+// ---------------------------------------------------------------- sparsest legal shapes
+
+// FibCase builds the sparsest AVL tree of the given height (a Fibonacci tree: every node's subtrees differ by one
+// level) by inserting its keys level by level - no rotation is ever needed - and then exercises every observer,
+// Clone and a few removals on it. Depth-dependent code (explicit stacks sized from the element count, recursion
+// limits) sees its worst case here: such a tree has ~1.44*log2(n) levels.
+type FibCase struct {
+	H    int `json:"h"`
+	Elem int `json:"elem"`
+}
+
+// fibKeys returns the keys of the Fibonacci tree of height h (in edges) in level order, with in-order ranks as keys.
+func fibKeys(h int) []int {
+	type nd struct {
+		l, r *nd
+		key  int
+	}
+	var build func(h int) *nd
+	build = func(h int) *nd {
+		if h < 0 {
+			return nil
+		}
+		if h == 0 {
+			return &nd{}
+		}
+		return &nd{l: build(h - 1), r: build(h - 2)}
+	}
+	root := build(h)
+	next := 0
+	var number func(n *nd)
+	number = func(n *nd) {
+		if n == nil {
+			return
+		}
+		number(n.l)
+		n.key = next
+		next++
+		number(n.r)
+	}
+	number(root)
+	var out []int
+	q := []*nd{root}
+	for len(q) > 0 {
+		n := q[0]
+		q = q[1:]
+		if n == nil {
+			continue
+		}
+		out = append(out, n.key)
+		q = append(q, n.l, n.r)
+	}
+	return out
+}
+
+func RunFib(c FibCase) pbt.Outcome {
+	keys := fibKeys(c.H)
+	var ops []Op
+	for _, kx := range keys {
+		ops = append(ops, Op{K: "add", V: kx})
+	}
+	ops = append(ops, Op{K: "walk", V: len(keys) / 2}, Op{K: "clone"}, Op{K: "walk", V: 1, T: 1})
+	// a few removals on the clone and on the original, each followed by the full check
+	for j := 0; j < 6 && j < len(keys); j++ {
+		ops = append(ops, Op{K: "rem", V: keys[(j*37)%len(keys)], T: j % 2}, Op{K: "walk", V: j, T: j % 2})
+	}
+	out := Run(Case{Elem: c.Elem, U: len(keys), Ops: ops})
+	out.Labels = append(out.Labels, fmt.Sprintf("fib-height=%d", c.H))
+	out.NonTrivial = out.Violation == "" && len(keys) >= 7
+	out.Evals = len(ops)
+	return out
+}
+
+var specFib = pbt.Register(&pbt.Spec[FibCase]{
+	Property: "C01", Name: "C01.fib",
+	Rule: "sparsest AVL shapes: for every height 0..12 (thorough 0..15; 1, 2, 4, 7, 12, 20, 33, 54, 88, 143, 232, 376, 609 ... elements) and element types int/reversed-int the Fibonacci tree is built by level-order insertion, " +
+		"with the full C01 check (model, one-tree oracle, Contains sweep) after every insertion, then walks with nested reads, Clone, and removals on both trees; non-trivial = >= 7 elements",
+	Enum: func(shard, shards int, tier string, yield func(FibCase) bool) {
+		maxH := 12
+		if tier == "thorough" {
+			maxH = 15
+		}
+		for h := 0; h <= maxH; h++ {
+			for _, elem := range []int{0, 1} {
+				if (h+elem)%shards != shard {
+					continue
+				}
+				if !yield(FibCase{H: h, Elem: elem}) {
+					return
+				}
+			}
+		}
+	},
+	Run: RunFib, Exhaustive: true, CaseCPU: 120 * time.Second,
+})
+
+func TestC01Fib(t *testing.T)  { pbt.Check(t, specFib) }
 func TestC01Hist(t *testing.T) { pbt.Check(t, specHist) }
 func TestReplay(t *testing.T)  { pbt.Replay(t) }
 
